@@ -744,3 +744,130 @@ impl Report {
     0
   }
 }
+
+// ---------------------------------------------------------------------------------------
+// isolated execution of one case in a child vprop process (aborts, stack overflows, hangs)
+
+pub const CHILD_FAIL_EXIT: i32 = 10;
+
+static ISO_COUNTER: std::sync::atomic::AtomicUsize = std::sync::atomic::AtomicUsize::new(0);
+
+/// Outcome of a child run that did not come back with a verdict
+pub fn run_isolated<C: Serialize>(prop: &str, stage: &str, case: &C, timeout: std::time::Duration) -> CheckResult {
+  use std::io::Read;
+  let n = ISO_COUNTER.fetch_add(1, std::sync::atomic::Ordering::SeqCst);
+  let dir = Path::new(VERIF).join(".work");
+  let _ = std::fs::create_dir_all(&dir);
+  let path = dir.join(format!("{}-iso-{}.json", std::process::id(), n));
+  std::fs::write(&path, serde_json::to_vec(case).unwrap()).expect("write isolated case");
+  let exe = std::env::current_exe().expect("exe");
+  let run = |limit: std::time::Duration| -> (Option<std::process::ExitStatus>, String, String) {
+    let mut child = std::process::Command::new(&exe)
+      .arg("__case")
+      .arg(prop)
+      .arg(stage)
+      .arg(&path)
+      .stdin(std::process::Stdio::null())
+      .stdout(std::process::Stdio::piped())
+      .stderr(std::process::Stdio::piped())
+      .spawn()
+      .expect("spawn child vprop");
+    let mut so = child.stdout.take().unwrap();
+    let mut se = child.stderr.take().unwrap();
+    let t1 = std::thread::spawn(move || {
+      let mut s = String::new();
+      let _ = so.read_to_string(&mut s);
+      s
+    });
+    let t2 = std::thread::spawn(move || {
+      let mut b = vec![];
+      let _ = se.read_to_end(&mut b);
+      String::from_utf8_lossy(&b).into_owned()
+    });
+    let start = Instant::now();
+    let status = loop {
+      match child.try_wait() {
+        Ok(Some(s)) => break Some(s),
+        Ok(None) => {
+          if start.elapsed() > limit {
+            let _ = child.kill();
+            let _ = child.wait();
+            break None;
+          }
+          std::thread::sleep(std::time::Duration::from_millis(1));
+        }
+        Err(_) => break None,
+      }
+    };
+    (status, t1.join().unwrap_or_default(), t2.join().unwrap_or_default())
+  };
+  let (mut status, mut out, mut err) = run(timeout);
+  if status.is_none() {
+    // a hang is re-run twice with a longer limit before it counts
+    for _ in 0..2 {
+      let r = run(timeout * 3);
+      status = r.0;
+      out = r.1;
+      err = r.2;
+      if status.is_some() {
+        break;
+      }
+    }
+  }
+  let _ = std::fs::remove_file(&path);
+  let Some(status) = status else {
+    return Err(Fail::new("hang", format!("the case did not terminate within {:?} (three attempts)", timeout * 3)));
+  };
+  match status.code() {
+    Some(0) => Ok(()),
+    Some(CHILD_FAIL_EXIT) => {
+      let v: Value = serde_json::from_str(out.trim()).unwrap_or(Value::Null);
+      Err(Fail::new(
+        v.get("signature").and_then(|s| s.as_str()).unwrap_or("child-fail"),
+        v.get("message").and_then(|s| s.as_str()).unwrap_or(&out),
+      ))
+    }
+    other => {
+      use std::os::unix::process::ExitStatusExt;
+      let what = if err.contains("has overflowed its stack") {
+        "stack-overflow".to_string()
+      } else if let Some(sig) = status.signal() {
+        format!("signal-{sig}")
+      } else {
+        format!("exit-{other:?}")
+      };
+      Err(Fail::new(
+        format!("crash:{what}"),
+        format!("child process died ({what}); stderr tail: {}", err.chars().rev().take(400).collect::<String>().chars().rev().collect::<String>()),
+      ))
+    }
+  }
+}
+
+/// child side of run_isolated
+pub fn child_case<C: DeserializeOwned + Sync>(path: &Path, check: impl Fn(&C, &mut Stats) -> CheckResult + Send + Sync) -> i32 {
+  let text = std::fs::read_to_string(path).expect("read case");
+  let case: C = serde_json::from_str(&text).expect("case json");
+  // run on a thread with a generous stack: only unbounded recursion should overflow
+  let r = std::thread::scope(|s| {
+    std::thread::Builder::new()
+      .stack_size(64 << 20)
+      .spawn_scoped(s, || {
+        let mut st = Stats::new();
+        match catch(|| check(&case, &mut st)) {
+          Ok(r) => r,
+          Err(p) => Err(Fail::new(panic_signature(&p), format!("panic: {p}"))),
+        }
+      })
+      .expect("spawn")
+      .join()
+      .unwrap_or_else(|_| Err(Fail::new("child-thread-died", "child thread died")))
+  });
+  match r {
+    Ok(()) => 0,
+    Err(f) => {
+      println!("{}", json!({"signature": f.signature, "message": f.message}));
+      CHILD_FAIL_EXIT
+    }
+  }
+}
